@@ -372,6 +372,16 @@ def run(tier):
     from .. import idkeys
     chk.guard(idkeys.report, chk, prog, 'C01.R13', 'no object address (builtin id()) outlives the function that took it: none keys a module-level or object-level container, is stored on an object or put into a record',
               'a cache of rendered text / unpickled inputs / verdicts keyed by an address hands the command the text of a candidate that has been freed: the file that is checked is not the candidate that is adopted')
+    # the candidate writer does not turn a failed write into a value
+    from . import c05 as _c05w
+    sub05w = Check('C05', 'other', tier, [], [])
+    chk.guard(_c05w.rule_r9, sub05w, prog)
+    Check.restrict(sub05w, lambda wh, what: str(wh).startswith('nodeio.'))
+    chk.adopt('C01.R14', 'the writers of the candidate file and of the '
+              'output file raise when the write fails (their handlers '
+              're-raise on every path): the command is never run on the '
+              'stale file of the previous candidate (shared with the '
+              'writer part of C05.R9)', sub05w)
     extra = None
     if tier == 'thorough':
         from .. import selftest
